@@ -73,7 +73,7 @@ func walkCmds(cfg CfgRec) []CmdRec {
 	}
 	add(CmdRec{C: "BDAT", A: "noarg"})
 	add(CmdRec{C: "BDAT", A: "badsize"})
-	for _, n := range []int{0, 6} {
+	for _, n := range []int{0, 6, 12} {
 		for _, l := range []bool{false, true} {
 			if n > 0 {
 				add(CmdRec{C: "BDAT", A: "3args", N: n, L: l})
@@ -202,6 +202,7 @@ func Walk(srv *drv.Server, cfg CfgRec, rng *rand.Rand, maxSteps int) ([]TraceEve
 			out = append(out, o...)
 			sent = append(sent, string(ph))
 			if err != nil {
+				hist = append(hist, StepRec{Cmd: cmd.String(), Sent: sent})
 				return nil, hist, err
 			}
 			if i+1 < len(k.Phases) {
